@@ -160,6 +160,10 @@ var rangeForms = []rangeForm{
 	{"be2", Iter{Form: "beginend", Begin: "0", End: "1"}, "0", 2},
 	{"be0", Iter{Form: "beginend", Begin: "1", End: "0"}, "", 0},
 	{"bevar3", Iter{Form: "beginend", Begin: "{{ lo }}", End: "{{ hi }}"}, "1", 3},
+	// element order that no sorting reproduces, a repeated element, numbers whose text order differs from their numeric order
+	{"json3-unsorted", Iter{Form: "range", Range: `["b","c","a"]`}, "b", 3},
+	{"json2-repeated", Iter{Form: "range", Range: `["a","a"]`}, "a", 2},
+	{"be3-9to11", Iter{Form: "beginend", Begin: "9", End: "11"}, "9", 3},
 }
 
 var bodyForms = []string{"task", "call", "hook", "agg1", "agg2", "nested", "include"}
@@ -590,7 +594,10 @@ func genMisc(tier string, emit func(*Template)) {
 		// deep nesting with variables handed down through an iterator and an include
 		inc := &N{Kind: "include", Name: "n3", Include: "sub", Vars: []KV{{"fromInc", "I-{{ it }}"}}}
 		deep := root(iter(agg(2, "", inc), `["a","b"]`, "it"))
-		names := []string{"cascade-empty", "cascade-empty-all", "empty-roles-list", "empty-roles-list-only", "root-empty-roles-list", "two-iterators-order",
+		// order around an iterator whose elements are not sorted, and a repeated element between siblings
+		cases["range-unsorted-between-siblings"] = root(leaf(1, ""), iter(leaf(2, ""), `["z","m","a"]`, "it"), leaf(3, ""), iter(agg(4, "", leaf(6, "")), `["10","9"]`, "jt"))
+		cases["range-repeated-element"] = root(iter(agg(2, "", leaf(4, "")), `["a","b","a"]`, "it"), leaf(5, ""))
+		names := []string{"range-unsorted-between-siblings", "range-repeated-element", "cascade-empty", "cascade-empty-all", "empty-roles-list", "empty-roles-list-only", "root-empty-roles-list", "two-iterators-order",
 			"iterator-first-disabled", "iterator-mid-disabled", "iterator-only-iterators", "iterator-empty-in-agg", "iterator-and-plain",
 			"range-from-parent-vars", "range-from-outer-element"}
 		for _, k := range names {
@@ -602,6 +609,48 @@ func genMisc(tier string, emit func(*Template)) {
 		sub.Kids[1].Vars = []KV{{"seen", "{{ fromInc }}"}}
 		t.Includes["sub"] = sub
 		emit(t)
+		// include roles: the name of the included template given by a variable; the included template's own root
+		// switched off (literally / by expression) or left empty by pruning - the include role then disappears like any
+		// emptied aggregator, and so does an aggregator it was the only member of; an include inside an included template
+		mkSub := func(name string, kids ...*N) *N {
+			s := agg(9, "", kids...)
+			s.Name = name
+			return s
+		}
+		incRole := func(idx int, target string) *N {
+			return &N{Kind: "include", Name: fmt.Sprintf("n%d", idx), Include: target}
+		}
+		{
+			r := root(leaf(1, ""), incRole(2, "{{ which }}"))
+			r.Vars = []KV{{"which", "sub"}}
+			t := newTemplate(r, flag, "misc/include-name-from-variable")
+			t.Includes["sub"] = mkSub("sub", leaf(4, ""), leaf(5, ""))
+			t.Includes["other"] = mkSub("other", leaf(6, ""))
+			emit(t)
+		}
+		for _, form := range []string{"false", "{{ flag }}"} {
+			t := newTemplate(root(leaf(1, ""), incRole(2, "sub"), agg(3, "", incRole(5, "sub"))), flag, "misc/include-root-disabled")
+			sub := mkSub("sub", leaf(4, ""), leaf(6, ""))
+			sub.Enabled = form
+			sub.Vars = []KV{{"subvar", "S"}}
+			t.Includes["sub"] = sub
+			emit(t)
+		}
+		{
+			t := newTemplate(root(leaf(1, ""), incRole(2, "sub"), agg(3, "", incRole(5, "sub"))), flag, "misc/include-left-empty")
+			t.Includes["sub"] = mkSub("sub", en(leaf(4, ""), "{{ flag }}"), en(agg(6, "", leaf(8, "")), "{{ flag }}"))
+			emit(t)
+		}
+		{
+			t := newTemplate(root(incRole(2, "sub"), leaf(1, "")), flag, "misc/include-in-include")
+			outer := mkSub("sub", leaf(4, ""), incRole(6, "sub2"))
+			outer.Vars = []KV{{"fromOuter", "O"}}
+			t.Includes["sub"] = outer
+			inner := mkSub("sub2", en(leaf(8, ""), "{{ flag }}"), leaf(10, ""))
+			inner.Kids[1].Vars = []KV{{"seen", "{{ fromOuter }}"}}
+			t.Includes["sub2"] = inner
+			emit(t)
+		}
 	}
 }
 
@@ -658,9 +707,9 @@ func genNested(tier string, emit func(*Template)) {
 func directScenarios() []*vrt.Scenario {
 	return []*vrt.Scenario{
 		directScenario("prune", "all trees with <= 2 (thorough: 3) roles below the root, depth <= 3, each role optionally an iterator over 2 elements, all assignments of enabled in {absent,true,false,{{ flag }}} to all roles, flag in {true,false}", genPrune),
-		directScenario("iter", "one iterator (7 range forms: JSON list of 0/1/2, list from a variable, begin/end of 0/2/3 elements) x 7 body forms (task, call, hook, aggregator of 1/2, nested iterator, include) x enabled of the iterator (absent,false,{{ flag }},element-dependent,comparison) x enabled inside the body x flag x with/without siblings", genIter),
+		directScenario("iter", "one iterator (10 range forms: JSON list of 0/1/2, list from a variable, begin/end of 0/2/3 elements, an unsorted list of 3, a list repeating an element, begin/end 9..11) x 7 body forms (task, call, hook, aggregator of 1/2, nested iterator, include) x enabled of the iterator (absent,false,{{ flag }},element-dependent,comparison) x enabled inside the body x flag x with/without siblings", genIter),
 		directScenario("vars", "chain root -> mid (aggregator | iterator) -> task; pv defined in every subset of <= 2 (thorough: 3) of 9 places (environment defaults/vars/user vars, root/mid/leaf defaults/vars), referenced from each of 9 templated fields of the leaf", genVars),
-		directScenario("misc", "hand-picked corner templates (empty roles lists, cascades of emptied aggregators, order around iterators, element-dependent enabled, ranges from parent variables / the outer element, include under an iterator) x flag", genMisc),
+		directScenario("misc", "hand-picked corner templates (empty roles lists, cascades of emptied aggregators, order around iterators, element-dependent enabled, ranges from parent variables / the outer element, unsorted and repeated range elements between siblings, include under an iterator, include named by a variable, included root switched off or left empty, include inside an included template) x flag", genMisc),
 		directScenario("nested", "iterator (2-3 elements) over an aggregator holding an inner iterator (fixed range / range built from the outer element) x a variable defined on the generated outer role (absent, vars, defaults) x the inner roles referring to both iteration variables and that variable from vars / defaults / constraints / bind x with/without a sibling", genNested),
 		directScenario("errors", "5 base templates x every role x every templated field x 3 kinds of template error (one at a time), plus errors that hit a single element of an iterator range", genErrors),
 	}
